@@ -17,6 +17,29 @@ pub fn prefix_for(situation: u8, ts: u8, others: &[u8]) -> Vec<Sym> {
         0 => vec![],
         // 1: alone with the token (claimed after the silence time-out, GAP scanned)
         1 => vec![Sym::Wait(WaitLen::TimeoutPlus), Sym::Wait(WaitLen::TimeoutPlus)],
+        // 4: as 2, then one regular token visit, a single token offer from a stranger (free address, HSA-1 or
+        // the highest free one) that is not repeated, and another regular token visit: the station is back
+        // in ActiveIdle, the old offer must be forgotten
+        4 => {
+            let mut v = prefix_for(2, ts, others);
+            let ring: Vec<u8> = others.to_vec();
+            let ps = ring.iter().rev().find(|a| **a < ts).copied().unwrap_or(*ring.last().unwrap());
+            let ns = ring.iter().find(|a| **a > ts).copied().unwrap_or(ring[0]);
+            let stranger = (0..=125u8).rev().find(|a| *a != ts && !ring.contains(a) && *a < 7).unwrap_or(100);
+            let after_ns = ring.iter().find(|a| **a > ns).copied().unwrap_or(ring[0]);
+            let visit_end = |v: &mut Vec<Sym>| {
+                // the station uses the token (a GAP poll that stays unanswered) and passes it on; the
+                // successor is heard passing it on
+                v.push(Sym::Wait(WaitLen::SlotPlus));
+                v.push(Sym::Wait(WaitLen::HalfSlot));
+                v.push(Sym::Tel(rc::token(if after_ns == ts { ps } else { after_ns }, ns), Gap::G33));
+            };
+            visit_end(&mut v);
+            v.push(Sym::Tel(rc::token(ts, stranger), Gap::G33));
+            v.push(Sym::Tel(rc::token(ts, ps), Gap::G33));
+            visit_end(&mut v);
+            v
+        }
         // 2: in a ring with `others`: three rotations witnessed, GAP poll answered, token received
         _ => {
             let mut v = vec![];
@@ -208,7 +231,7 @@ pub fn run_c11(tier: Tier) -> ! {
         let ns = others.iter().find(|a| *a > ts).copied().unwrap_or(others[0]);
         let free: Vec<u8> = (0..*hsa).filter(|a| a != ts && !others.contains(a)).collect();
         let (s1, s2) = (free[free.len() - 1], free[0]);
-        for situation in [2u8, 3, 0, 1] {
+        for situation in [2u8, 3, 0, 1, 4] {
             // situation 3: two-station ring (only ns)
             let (sit, oth): (u8, Vec<u8>) = match situation {
                 3 => (2, vec![ns]),
@@ -216,6 +239,9 @@ pub fn run_c11(tier: Tier) -> ! {
             };
             for div in [8i64, 4] {
                 if tier == Tier::Quick && (si > 0 && (div == 4 || situation != 2)) {
+                    continue;
+                }
+                if situation == 4 && div == 4 {
                     continue;
                 }
                 let (psx, nsx) = if situation == 3 { (ns, ns) } else { (ps, ns) };
